@@ -291,8 +291,11 @@ struct Dec {
   int width() { static const int t[4] = {32, 64, 8, 16}; return t[u(4)]; }
   int64_t imm() {
     static const int64_t tbl[] = {1, 0, -1, 2, 5, 0x7f, 0x80, 0xff, 0x100, 0x7fff, 0x8000, 0xffff, 0x10000, 0x7fffffff, -0x80000000LL, 0x55555555, -2, 31, 32, 63};
+    // s == 23: 64-bit values that fit an unsigned but not a signed 32-bit immediate (a sign-extending `mov qword [mem], imm32` of a stack
+    // argument or spill must not be used for them)
+    static const int64_t tbl_u32[] = {0x80000000LL, 0xffffffffLL, 0x80000001LL, 0xfedcba98LL};
     int s = u(24); int64_t r = raw();
-    return s < 20 ? tbl[s] : r;
+    return s < 20 ? tbl[s] : s == 23 ? tbl_u32[uint64_t(r) % 4] : r;
   }
 };
 inline int64_t fit_imm(int64_t v, int w) { return w == 8 ? int8_t(v) : w == 16 ? int16_t(v) : int32_t(v); }
